@@ -58,7 +58,21 @@ def g1(x):
     LOG.append(("g1", x)); return x + 1000
 
 
-TABLE = [("f0", f0, 0), ("f1", f1, 1), ("f2", f2, 2), ("f3", f3, 3), ("fk1", fk1, 1), ("fk2", fk2, 2)]
+# parameter NAMES out of the canonical order: arguments are still passed by position (first argument -> first parameter)
+def f2r(y, x):
+    LOG.append(("f2r", y, x)); return y - 2 * x
+
+
+def f3r(z, x, y):
+    LOG.append(("f3r", z, x, y)); return z - 2 * x + 5 * y
+
+
+def fk2r(klong, y, x):
+    LOG.append(("fk2r", klong is K, y, x)); return 3 * y - x
+
+
+TABLE = [("f0", f0, 0), ("f1", f1, 1), ("f2", f2, 2), ("f3", f3, 3), ("fk1", fk1, 1), ("fk2", fk2, 2),
+         ("f2r", f2r, 2), ("f3r", f3r, 3), ("fk2r", fk2r, 2)]
 
 
 def _clean():
@@ -88,7 +102,8 @@ def callables(a: int, b: int, c: int, fi: int, form: int, redefine: bool) -> boo
         args = [a, b, c][:arity]
         want_log = None; want = None
         py = {"f0": lambda: 100, "f1": lambda x: x + 1, "f2": lambda x, y: x - 2 * y, "f3": lambda x, y, z: x - 2 * y + 5 * z,
-              "fk1": lambda x: x + 2, "fk2": lambda x, y: 3 * x - y}[name]
+              "fk1": lambda x: x + 2, "fk2": lambda x, y: 3 * x - y,
+              "f2r": lambda p, q: p - 2 * q, "f3r": lambda p, q, r: p - 2 * q + 5 * r, "fk2r": lambda p, q: 3 * p - q}[name]
         tag = lambda *v: (name,) + ((True,) if name.startswith("fk") else ()) + tuple(v)
         if form == 0:                                                     # direct
             text = "h(" + ";".join("ABC"[:arity]) + ")"
@@ -235,6 +250,48 @@ def wrapper(a: int, b: int, c: int, arity: int, step: int, nargs: int) -> bool:
         raise
 
 
+def wrapper_history(a: int, b: int, c: int, arity: int, o1: int, o2: int, o3: int, o4: int) -> bool:
+    """
+    pre: 1 <= arity <= 3 and arity == CFG.get('arity', arity)
+    pre: 0 <= o1 <= 3 and 0 <= o2 <= 3 and 0 <= o3 <= 3 and 0 <= o4 <= 3 and o1 == CFG.get('o1', o1)
+    post: _
+    """
+    # histories of  0 call | 1 define body A | 2 define body B | 3 delete the name  after the wrapper was obtained: every call
+    # through the wrapper runs the CURRENT definition of the name (the one it was created from while the name is unbound) and
+    # agrees with the Klong call whenever the name is bound
+    enter()
+    try:
+        _clean()
+        A_ = {1: ("{(2*x)+1}", lambda x: 2 * x + 1), 2: ("{x-2*y}", lambda x, y: x - 2 * y), 3: ("{(x-2*y)+5*z}", lambda x, y, z: x - 2 * y + 5 * z)}
+        B_ = {1: ("{x-7}", lambda x: x - 7), 2: ("{y-x}", lambda x, y: y - x), 3: ("{z-(x+y)}", lambda x, y, z: z - (x + y))}
+        K('fn::' + A_[arity][0])
+        w = K['fn']
+        orig = A_[arity][1]; bound = orig
+        args = [a, b, c][:arity]
+        K['A'] = a; K['B'] = b; K['C'] = c
+        for o in [o1, o2, o3, o4][:CFG.get('steps', 4)]:
+            if o == 1:
+                K('fn::' + A_[arity][0]); bound = A_[arity][1]
+            elif o == 2:
+                K('fn::' + B_[arity][0]); bound = B_[arity][1]
+            elif o == 3:
+                if bound is None:
+                    continue
+                del K['fn']; bound = None
+            else:
+                got = w(*args)
+                want = (bound or orig)(*args)
+                if W.canon(got) != W.canon(want):
+                    return verdict(False)
+                if bound is not None and W.canon(K("fn(" + ";".join("ABC"[:arity]) + ")")) != W.canon(got):
+                    return verdict(False)
+        return verdict(True)
+    except Exception as e:
+        if type(e).__name__ == "OutsideModel":
+            cut(str(e)[:60]); return True
+        raise
+
+
 def imported(a: int, b: int, c: int, which: int) -> bool:
     """
     pre: 0 <= which <= 5
@@ -299,7 +356,7 @@ def imported(a: int, b: int, c: int, which: int) -> bool:
 
 def bounds(tier):
     return {"callables": [t[0] for t in TABLE], "call forms": ["direct", "via variable", "@", "projection+fill", "each/over", "read back"],
-            "rebinding": "name bound once / bound to another callable first", "wrapper": "arity 1..3, redefined / deleted / unchanged, 0..4 arguments",
+            "rebinding": "name bound once / bound to another callable first", "wrapper": "arity 1..3, redefined / deleted / unchanged, 0..4 arguments; histories of 4 operations (call, define A, define B, delete)",
             "data": "int, vector (len <= 3), string (len <= 2), dictionary, nested list, symbol", "values": "unbounded symbolic integers"}
 
 
@@ -311,5 +368,7 @@ def obligations(tier):
         obs.append({"name": "callable %s" % TABLE[fi][0], "fn": "callables", "cfg": {"fi": fi}, "timeout": T_})
     obs += [{"name": "data values", "fn": "data", "cfg": {}, "timeout": T_},
             {"name": "function wrapper", "fn": "wrapper", "cfg": {}, "timeout": T_},
+            ] + [{"name": "function wrapper: call / redefine / delete histories, arity %d, first op %d" % (ar, o1), "fn": "wrapper_history",
+                  "cfg": {"steps": 4, "arity": ar, "o1": o1}, "timeout": T_} for ar in (1, 2, 3) for o1 in range(4)] + [
             {"name": "imported signatures", "fn": "imported", "cfg": {}, "timeout": T_}]
     return obs
